@@ -54,6 +54,7 @@ INPLACE_OPS = [
     ("resolve_nested_svgs", (), {}),
     ("topicosvg", (), {}),
     ("topicosvg", (), {"drop_unsupported": True}),
+    ("remove_comments", (), {}),
 ]
 QUERIES = ["shapes", "bounding_box", "view_box", "tolerance", "checkpicosvg", "checkpicosvg_drop", "tostring", "toetree", "depth_first", "breadth_first"]
 
